@@ -182,6 +182,22 @@ def pos_attrs(repo):
     return [(k.value, v.value) for k, v in zip(d.keys, d.values)]
 
 
+def fcomponent_replace(repo):
+    """does FComponent.replace keep the positioned copy that Sequence.replace(recursive=True) returns?"""
+    tree, _ = parse_py(repo, "hy/models.py")
+    fn = top_func(tree, "replace", "hy/models.py", cls="FComponent")
+    body = body_without_docstring(fn)
+    if not body or ast.unparse(body[-1]) not in ("return self", "return new"):
+        raise ShapeChanged("hy/models.py: FComponent.replace does not end in `return self` / `return new`")
+    first = body[0]
+    call = "super().replace(other, recursive)"
+    if isinstance(first, ast.Expr) and ast.unparse(first.value) == call and ast.unparse(body[-1]) == "return self":
+        return True          # result discarded: self keeps whatever positions it had
+    if isinstance(first, ast.Assign) and ast.unparse(first.value) == call:
+        return False
+    raise ShapeChanged("hy/models.py: FComponent.replace no longer starts with `%s`" % call)
+
+
 def translate(repo):
     attrs = pos_attrs(repo)
     ss = sites(repo)
@@ -193,6 +209,8 @@ def translate(repo):
     out += "Definition asty_sites : list (text * text * psrc) := [\n"
     out += ";\n".join("  (%s, %s, %s)  (* %s %s *)" % (coq_text(n), coq_text(a), k, w, f) for n, f, a, k, w in ss)
     out += "\n].\n"
+    out += "(* FComponent.replace calls Sequence.replace and drops the positioned copy it returns *)\n"
+    out += "Definition fcomponent_replace_discards : bool := %s.\n" % ("true" if fcomponent_replace(repo) else "false")
     out += "(* models built by the handlers themselves: (handler, text, what happens to it) *)\n"
     out += "Definition synthesized : list (text * text * synth) := [\n"
     out += ";\n".join("  (%s, %s, %s)  (* %s *)" % (coq_text(f), coq_text(t), k, w) for f, t, k, w in synthesized(repo))
